@@ -12,6 +12,7 @@ import (
 	"io"
 	"os"
 	"strings"
+	"time"
 
 	"github.com/ProtonMail/gluon/imap"
 	"github.com/ProtonMail/gluon/rfc5322"
@@ -219,6 +220,28 @@ func childMain() {
 				fmt.Fprintln(os.Stderr, "child: bad request:", jerr)
 				os.Exit(4)
 			}
+			// self-watchdog: if this request hangs (or the parent is gone) the process ends itself
+			done := make(chan struct{})
+			go func(n int) {
+				t := time.NewTimer(deadlineFor(n, 240*time.Second) + 15*time.Second)
+				tick := time.NewTicker(200 * time.Millisecond)
+				defer t.Stop()
+				defer tick.Stop()
+				for {
+					select {
+					case <-done:
+						return
+					case <-t.C:
+						fmt.Fprintln(os.Stderr, "child: request exceeded its deadline, exiting")
+						os.Exit(9)
+					case <-tick.C:
+						if childRSS(os.Getpid()) > rssLimit+(1<<30) {
+							fmt.Fprintln(os.Stderr, "child: resident memory above the bound, exiting")
+							os.Exit(9)
+						}
+					}
+				}
+			}(len(req.Data))
 			var resp response
 			switch req.Op {
 			case "msg":
@@ -230,6 +253,7 @@ func childMain() {
 				_, err := rfc5322.ParseDateTime(strings.TrimSpace(string(req.Data)))
 				resp.AddrOK = err == nil
 			}
+			close(done)
 			b, _ := json.Marshal(resp)
 			out.Write(b)
 			out.WriteByte('\n')
